@@ -208,7 +208,7 @@ register(Theorem(
     options={"bounded_only": True, "bounded_inputs": lambda: (_xk(False)(__import__("random").Random(i)) for i in range(150)),
              "bound": "150 generated public extended keys (depth 0/1/2/255, boundary child numbers, both networks); the deductive version "
                       "(contracts/pending_c09.py) exceeded the generation budget - the decoding half is proved for EVERY payload as "
-                      "C09.xkey.accept_set.public.* and the SEC1 round trip as C14.sec1.roundtrip.compressed"},
+                      "C09.xkey.accept_set.public.* (SEC1 round trip: C14.sec1.roundtrip.*)"},
     witnesses=[],
 ))
 
